@@ -1,7 +1,7 @@
 """Calls: builtins, library models, spec builtins (forall/exists/old/...), macros, contract application."""
 import ast
 import z3
-from .ty import Ty, INT, REAL, BOOL, NONE, STR, Ref, List, Seq, Opt, Tuple, sort_of, elem_key, parse_ty
+from .ty import Ty, INT, REAL, BOOL, NONE, STR, EXT, Ref, List, Seq, Opt, Tuple, sort_of, elem_key, parse_ty
 from .state import SV, PyVal, State, Snapshot, mk_int, mk_real, mk_bool, mk_none, mk_str, mk_tuple, mk_seq
 from .ctx import Unsupported, RaiseSig, PathEnd
 from .expr import is_sv, _ix, rd
@@ -298,7 +298,10 @@ class CallMixin:
 
     def bi_round(self, args, kwargs, st, spec):
         if len(args) != 1:
-            raise Unsupported("round with digits")
+            # round(x, n): decimal rounding is kept uninterpreted (a function of its arguments)
+            f = z3.Function("round_dec", z3.RealSort(), z3.IntSort(), z3.RealSort())
+            self.ctx.models_used.add("round(x, n) / np.round(x, decimals=n): uninterpreted function round_dec(x, n)")
+            return SV(REAL, f(self.to_real(args[0]), self.to_int(args[1])))
         v = args[0]
         if v.ty.kind == "int":
             return v
@@ -489,13 +492,30 @@ class CallMixin:
         return r
     bi_choice = bi_random_choice
 
+    def concrete_int(self, t, st):
+        """the unique integer value of t under the path condition, if there is one"""
+        ts = z3.simplify(t)
+        if z3.is_int_value(ts):
+            return ts.as_long()
+        s = z3.Solver()
+        s.set("timeout", 2000)
+        s.add(*[f for f in st.pc if not z3.is_quantifier(f)])
+        if s.check() != z3.sat:
+            return None
+        v = s.model().eval(t, model_completion=True)
+        if not z3.is_int_value(v):
+            return None
+        s.add(t != v)
+        if s.check() == z3.unsat:
+            return v.as_long()
+        return None
+
     def bi_random_sample(self, args, kwargs, st, spec):
         v, k = args
         e, arr, off, ln = self.seq_of(v, st, spec)
-        ks = z3.simplify(self.to_int(k))
-        if not z3.is_int_value(ks):
+        n = self.concrete_int(self.to_int(k), st)
+        if n is None:
             raise Unsupported("sample size symbolic")
-        n = ks.as_long()
         if not spec:
             self.ctx.oblige(st, "safe:sample", ln >= n, text="sample size <= population")
         idx = [self.ctx.fresh("smp", z3.IntSort()) for _ in range(n)]
@@ -570,6 +590,8 @@ class CallMixin:
                 con = self.reg.method_contract(recv.ty.arg, name)
             if con is None:
                 raise Unsupported("method %s.%s has no contract" % (recv.ty.arg, name))
+            if con.params is None and self.frontend.is_staticmethod(self.frontend.function_node(con)):
+                return self.apply_contract(con, args, kwargs, st, "%s.%s" % (recv.ty.arg, name), spec=spec)
             return self.apply_contract(con, [recv] + args, kwargs, st, "%s.%s" % (recv.ty.arg, name), spec=spec)
         if k == "real" and name == "any":
             raise Unsupported("float has no attribute 'any'")
@@ -889,6 +911,14 @@ class CallMixin:
         b = self.to_real(self.ev(node.args[1], st, True))
         return SV(REAL, self.fdiv_fun()(a, b))
 
+    def spec_is_inf(self, node, st):
+        v = self.coerce(self.ev(node.args[0], st, True), EXT, st)
+        return mk_bool(v.aux != 0)
+
+    def spec_fin(self, node, st):
+        v = self.coerce(self.ev(node.args[0], st, True), EXT, st)
+        return SV(REAL, v.t)
+
     def spec_real(self, node, st):
         return SV(REAL, self.to_real(self.ev(node.args[0], st, True)))
 
@@ -922,12 +952,16 @@ class CallMixin:
             return z3.ArraySort(z3.IntSort(), z3.ArraySort(z3.IntSort(), s))
         if key.endswith("?"):
             return z3.ArraySort(z3.IntSort(), z3.BoolSort())
+        if key.endswith("!s"):
+            return z3.ArraySort(z3.IntSort(), z3.IntSort())
         if key.endswith(".$dyn"):
             return z3.ArraySort(z3.IntSort(), z3.ArraySort(z3.IntSort(), z3.RealSort()))
         c, f = key.split(".")
         if f.startswith("has_"):
             return z3.ArraySort(z3.IntSort(), z3.BoolSort())
         owner, ty = self.reg.field(c, f)
+        if ty.kind == "ext":
+            return z3.ArraySort(z3.IntSort(), z3.RealSort())
         if ty.kind == "opt":
             return z3.ArraySort(z3.IntSort(), sort_of(ty.arg))
         return z3.ArraySort(z3.IntSort(), sort_of(ty))
@@ -1045,6 +1079,10 @@ class CallMixin:
             return SV(ty, t, n)
         if k == "none":
             return mk_none()
+        if k == "ext":
+            sg = self.ctx.fresh(base + "!s", z3.IntSort())
+            st.assume(z3.And(sg >= -1, sg <= 1))
+            return SV(EXT, self.ctx.fresh(base, z3.RealSort()), sg)
         if k == "tuple":
             return mk_tuple([self.fresh_value(t, base, st) for t in ty.arg])
         if k == "seq":
@@ -1065,16 +1103,18 @@ class CallMixin:
             st.assume(a >= st.alloc())
             old_alloc = st.alloc()
             st.hset("$alloc", a)
-            # every heap array may differ above the old allocation bound (new objects)
-            keys = set(ctx.initial) | set(st.heap)
-            for key in list(keys):
-                if key == "$alloc":
-                    continue
-                cur = st.harr(key)
+            # heap arrays may differ above the old allocation bound (objects created by the callee).
+            # allocates=True: every array; allocates=[keys]: only the named arrays (list contents of the stated kinds, ...)
+            if con.allocates is True:
+                keys = [k for k in (set(ctx.initial) | set(st.heap)) if k != "$alloc"]
+            else:
+                keys = list(con.allocates)
+            for key in sorted(keys):
+                cur = st.harr(key, self.heap_sort(key))
                 fr = ctx.fresh("new_" + key, cur.sort())
-                r = z3.Int("r!al")
-                st.hset(key, z3.Lambda([r], z3.If(r < old_alloc, cur[r], fr[r])))
-            st._alloc_mark = old_alloc
+                r = ctx.fresh("r", z3.IntSort())
+                st.assume(z3.ForAll([r], z3.Implies(r < old_alloc, fr[r] == cur[r]), patterns=[fr[r]]))
+                st.hset(key, fr)
         for m in con.modifies:
             self.havoc_clause(m, st, pre)
 
@@ -1086,7 +1126,7 @@ class CallMixin:
             if not m.startswith("$"):
                 c, f = m.split(".")
                 fk = self.field_key(c, f)
-                keys = [fk[0]] + ([fk[0] + "?"] if fk[1].kind == "opt" else [])
+                keys = [fk[0]] + ([fk[0] + "?"] if fk[1].kind == "opt" else []) + ([fk[0] + "!s"] if fk[1].kind == "ext" else [])
             for key in keys:
                 cur = st.harr(key, self.heap_sort(key))
                 st.hset(key, ctx.fresh("hv_" + key, cur.sort()))
@@ -1147,7 +1187,7 @@ class CallMixin:
             a1 = tmp.harr(k1, self.heap_sort(k1))
             key, ty = self.field_key(t1.arg, path[1])
             member = lambda rr: z3.Exists([i], z3.And(0 <= i, i < ln, a1[arr[_ix(i, off)]] == rr))
-        keys = [key] + ([key + "?"] if ty.kind == "opt" else [])
+        keys = [key] + ([key + "?"] if ty.kind == "opt" else []) + ([key + "!s"] if ty.kind == "ext" else [])
         for kk in keys:
             cur = st.harr(kk, self.heap_sort(kk))
             fr = ctx.fresh("hv_" + kk, cur.sort())
